@@ -242,6 +242,59 @@ def make_cells(tier):
             cells.append(Cell("%s/n%d" % (kind, n), spd(), check_fact, lambda c, n=n: n >= 2, lambda c, n=n: ["n=%d" % n],
                               quick=60, thorough=1000, build=lambda kind=kind, n=n: fact_fn(kind, n).build()))
 
+    # ---- factorizations of SPD matrices given with structural zeros (sparse SX input): fill-in must be handled
+    PATTERNS = {
+        "arrow_first": lambda n: [(i, j) for i in range(n) for j in range(n) if i == j or i == 0 or j == 0],
+        "arrow_last": lambda n: [(i, j) for i in range(n) for j in range(n) if i == j or i == n - 1 or j == n - 1],
+        "tridiag": lambda n: [(i, j) for i in range(n) for j in range(n) if abs(i - j) <= 1],
+        "one_zero": lambda n: [(i, j) for i in range(n) for j in range(n) if {i, j} != {1, n - 1}],
+        "checker": lambda n: [(i, j) for i in range(n) for j in range(n) if (i + j) % 2 == 0 or abs(i - j) == 1 and min(i, j) == 0],
+    }
+
+    def sparse_fact_fn(kind, n, pat):
+        k = (kind, n, pat)
+        if k not in _fn:
+            def mk():
+                idx = PATTERNS[pat](n)
+                sp = ca.Sparsity.triplet(n, n, [i for i, j in idx], [j for i, j in idx])
+                P = ca.SX.sym("P", sp)
+                f = util().ldl_symmetric_decomposition if kind == "ldl" else util().udu_symmetric_decomposition
+                A, D = f(P)
+                return [P], [ca.densify(A), ca.densify(D)]
+
+            _fn[k] = cy.Fn("%s_%d_%s" % (kind, n, pat), mk)
+        return _fn[k]
+
+    for kind in ("ldl", "udu"):
+        for pat in PATTERNS:
+            for n in (3, 4, 6):
+                @st.composite
+                def sp_case(draw, n=n, pat=pat):
+                    idx = set(PATTERNS[pat](n))
+                    M = np.zeros((n, n))
+                    for i in range(n):
+                        for j in range(i):
+                            if (i, j) in idx:
+                                M[i, j] = M[j, i] = draw(gens.fl(-1.0, 1.0))
+                    for i in range(n):
+                        M[i, i] = float(np.sum(np.abs(M[i]))) + draw(gens.fl(0.1, 2.0))  # diagonally dominant -> SPD
+                    return {"P": M.tolist()}
+
+                def check_sp(case, kind=kind, n=n, pat=pat):
+                    P = np.array(case["P"], float)
+                    idx = PATTERNS[pat](n)
+                    sp = ca.Sparsity.triplet(n, n, [i for i, j in idx], [j for i, j in idx])
+                    f = sparse_fact_fn(kind, n, pat).build()
+                    A, D = [np.array(o, float) for o in f.call([ca.DM(sp, [P[i, j] for (i, j) in sorted(idx, key=lambda t: (t[1], t[0]))])])]
+                    if not (np.all(np.isfinite(A)) and np.all(np.isfinite(D))):
+                        raise Violation("%s on a %s-sparse SPD matrix (n=%d): non-finite factors" % (kind, pat, n), **case)
+                    sc = float(np.max(np.abs(P))) * float(np.linalg.cond(P))
+                    L.close(A @ D @ A.T, P, "%s on a %s-sparse SPD matrix (n=%d): reconstruction vs P" % (kind, pat, n),
+                            atol=1e-12 * sc, rtol=0, **case)
+
+                cells.append(Cell("%s/sparse_%s_n%d" % (kind, pat, n), sp_case(), check_sp, lambda c: True, None, quick=25, thorough=400,
+                                  build=lambda kind=kind, n=n, pat=pat: sparse_fact_fn(kind, n, pat).build()))
+
     # ---- rk4: exact for fields that are cubic polynomials in time
     dy = st.integers(-64, 64).map(lambda k: k / 16.0)
 
